@@ -4,6 +4,8 @@ Units (every one runs the REAL Cache / Population objects, in-memory and
 shelve-backed, under the controlled clock, against Model/Cache.v):
   ident_code     : ident.code / ident.decode vs the model's key function (identifiers differing in one field,
                    None vs "", separator / percent / non-ASCII characters)
+  ident_decode_texts : ident.decode on arbitrary texts off the image of code() (signed / multi-digit / out-of-range
+                   indexes, several "=", empty parts, percent escapes) vs Model.Cache.decode (= Model.Ident.decode)
   exh_*          : every sequence of mutating operations up to a bounded length over 2 subjects x 2 sources x
                    expiry {T as int, T as SAML string, 0/None/""}; after EVERY new prefix all read observables
                    of 4 identifiers (two stored subjects, a never-stored one differing in one field, an alias
@@ -33,7 +35,7 @@ from saml2_tophat import ident
 
 CLAIM = {
     "text": "Coq theorems (Props/C19.v) over an executable model of Cache / Population / time_util.before,after / ident.code,decode, by induction over arbitrary operation histories with an arbitrary clock reading per operation: the stored entry of (subject key, source) is exactly the last write of the history (refinement to a functional specification); get_identity returns, per attribute, exactly the values stored for THAT key by sources whose info is non-empty and (checking off or expiry not passed by the code's own comparison, a falsy expiry counting as passed), and lists exactly the remaining sources as stale; an operation on one key changes no observation of another key, and code() is injective on normalised identifiers (decode is its left inverse); after delete every observation of the subject is the empty one; read operations return the state unchanged. Tie to the code on every run: exhaustive operation sequences and long random histories on the real in-memory and shelve-backed objects, all read observables after every step, compared with the model evaluated inside coqc.",
-    "note": "Trusted: Coq kernel + vm_compute; the model is hand-written and tied to the code by the correspondence units (exhaustive to the stated length, random beyond); strings are UTF-8 byte lists (Python's str<->UTF-8 and strptime of the generated SAML time strings are outside the model); int() in decode is modelled for the single digits code() writes. The instant equal to the expiry counts as not yet passed (time_util.before uses <=): compared, not left open. Cache.active treats a falsy expiry as valid while get/get_identity treat it as expired (lemma C19_active_vs_get; what is RETURNED is the conservative side). Returned containers alias the stored ones in memory (a caller mutating them is outside the operation alphabet); the harness checks that the cache's own operations never change a value it handed out or stored.",
+    "note": "Trusted: Coq kernel + vm_compute; the model is hand-written and tied to the code by the correspondence units (exhaustive to the stated length, random beyond); strings are UTF-8 byte lists (Python's str<->UTF-8 and strptime of the generated SAML time strings are outside the model); ident.decode is Model/Ident.v's decoder (C18; int() with sign and several digits, negative indexes; white-space / underscore forms of int() are not compared). The instant equal to the expiry counts as not yet passed (time_util.before uses <=): compared, not left open. Cache.active treats a falsy expiry as valid while get/get_identity treat it as expired (lemma C19_active_vs_get; what is RETURNED is the conservative side). Returned containers alias the stored ones in memory (a caller mutating them is outside the operation alphabet); the harness checks that the cache's own operations never change a value it handed out or stored.",
     "technique": "machine-checked proof (Coq, induction over histories) + exhaustive and random model/implementation correspondence on both back ends",
 }
 TRUSTED = [
@@ -456,6 +458,12 @@ class Oracle(object):
 FIELD_VALUES = [None, "", "a", "b", "sp", "urn:x", "a,b", "4=a", "a=b", "a%2Cb", "a b", "a/b", "é", "😀,=", "%", "0", "1=x,2=y"]
 
 
+def regen(ctx):
+    # Model/Cache.v decodes through Model/Ident.v, whose ATTR table is regenerated from ident.py
+    import translate_c18
+    translate_c18.regen_ident()
+
+
 def unit_code(ctx):
     base = ("nq", "sp", "urn:fmt", "pid", "alice")
     ids = {base, (None,) * 5, ("",) * 5}
@@ -489,6 +497,50 @@ def unit_code(ctx):
     ctx.count("ident_code identifiers", len(cases))
     ctx.correspond("ident_code", "Model.Cache",
                    "fun n => VL [VS (code n); show_result show_nid (decode (code n))]", "nameid", cases, shard=400)
+
+
+# --------------------------------------------------------------------------
+# unit: ident.decode on ARBITRARY texts (off the image of code(): signed / multi-digit / out-of-range indexes, several
+# "=", empty parts, percent escapes) - Model.Cache.decode is Model.Ident.decode, which follows int() and list indexing
+# --------------------------------------------------------------------------
+def unit_decode_texts(ctx):
+    import re
+    import urllib.parse
+    rng = ctx.rng
+    idx = ["0", "1", "2", "3", "4", "5", "9", "-1", "-2", "-5", "-6", "+2", "+4", "", "x", "04", "004", "10", "-0", "4x", "1 "]
+    vals = ["v", "", "%2C", "%", "%4", "%41%42", "a%20b", "%C3%A9", "é", "%zz", "a/b", "%2", "+"]
+    texts = ["%s=%s" % (i, v) for i, v in itertools.product(idx, vals)]
+    texts += ["", ",", ",,", "a", "=", "==", "4=a=b", "4=a,4=b", "4=a,-1=b", "-1=a,4=b", "04=a,4=", "4=a,,0=b", "0=a,1=b,2=c,3=d,4=e",
+              "-5=a,-4=b,-3=c,-2=d,-1=e", "4=a,x", "x,4=a", "4=a ", " 4=a", "4=a,3=b=c", "5=a,4=b", "-6=a,0=b"]
+    for _ in range(300 if ctx.quick else 5000):
+        texts.append(",".join(rng.choice(idx) + rng.choice(["=", "=", "=", "", "=="]) + rng.choice(vals) for _ in range(rng.randint(1, 6))))
+    cases = []
+    for k, t in enumerate(texts):
+        try:
+            r = nid_fields(ident.decode(t))
+        except Exception as e:              # noqa: BLE001 - the class is the observable
+            r = Exn(type(e).__name__)
+        unspecified = False
+        for part in t.split(","):
+            if part.count("=") == 1:
+                i, v = part.split("=")
+                if not re.match(r"^[+-]?[0-9]+$", i):
+                    try:
+                        int(i)
+                        unspecified = True          # an int() form the model does not cover (white space, underscore, ...)
+                    except ValueError:
+                        pass
+                try:
+                    urllib.parse.unquote_to_bytes(v).decode("utf-8")
+                except UnicodeDecodeError:
+                    unspecified = True              # UTF-8 replacement characters: UTF-8 decoding is not modelled
+        if unspecified:
+            ctx.count("decode_texts:unspecified-not-compared")
+            continue
+        cases.append(dict(id=k, coq=cstr(B(t)), impl=r, show=t))
+        ctx.nontriv(("decode-text", t))
+        ctx.count("decode_texts:%s" % ("raises-" + r.name if isinstance(r, Exn) else "ok"))
+    ctx.correspond("ident_decode_texts", "Model.Cache", "fun s => show_result show_nid (decode s)", "str", cases, shard=400)
 
 
 # --------------------------------------------------------------------------
@@ -952,6 +1004,7 @@ def run(ctx):
     global _CLK
     shelves = Shelves(ctx)
     unit_code(ctx)
+    unit_decode_texts(ctx)
     with env.Clock(T) as clk:
         _CLK = clk
         unit_exhaustive(ctx, clk, shelves)
